@@ -102,7 +102,15 @@ def sweep(chk):
     if res:
       chk.violation(res[0] + ':first-element', res[1], dict(kind='piter-sweep', api='piter', parallelism=2, lens=[UNBOUNDED, UNBOUNDED], buffer=1 + k % 2,
                                                            stop_after=None, fail_at=None, fn_fail=1, main_last=True, run_seed=chk.seed * 31 + k))
-  chk.coverage['sweep_runs'] = n_runs + 6
+  # a pool that is not larger than the number of inputs of a two-stage piter: the per-input readers take every thread
+  for k, (n_in, size) in enumerate(((2, 2), (3, 3), (3, 2))):
+    res = _run_api('piter', 1, [4] * n_in, 1, None, None, chk.seed * 37 + k, pool_size=size)
+    chk.replayed()
+    if res:
+      sig = res[0].replace(':plain', ':pool-not-larger-than-inputs')
+      chk.violation(sig, res[1] + f' pool of {size} threads', dict(kind='piter-sweep', api='piter', parallelism=1, lens=[4] * n_in, buffer=1, pool_size=size,
+                                                                    run_seed=chk.seed * 37 + k))
+  chk.coverage['sweep_runs'] = n_runs + 9
 
 
 class _MainLast:
@@ -117,7 +125,7 @@ class _MainLast:
     return self.rnd.choice(others or enabled)
 
 
-def _run_api(api, par, lens, buf, stop_after, fail_at, seed, fn_fail=0, main_last=False):
+def _run_api(api, par, lens, buf, stop_after, fail_at, seed, fn_fail=0, main_last=False, pool_size=None):
   import collections
   from harness import qreplay, sched
   with qreplay.installed() as iter_utils:
@@ -137,6 +145,8 @@ def _run_api(api, par, lens, buf, stop_after, fail_at, seed, fn_fail=0, main_las
         pool = iter_utils.futures.ThreadPoolExecutor(max_workers=max(par, len(inputs)) + 1, thread_name_prefix='w#')
         if api == 'pmux':
           pool = iter_utils.futures.ThreadPoolExecutor(max_workers=par, thread_name_prefix='w#')
+        if pool_size:
+          pool = iter_utils.futures.ThreadPoolExecutor(max_workers=pool_size, thread_name_prefix='w#')
         # a submitted task may run (and fail) before submit() returns to the caller
         real_submit = pool.submit
 
